@@ -286,6 +286,52 @@ def enc2_lines(rng, cv, exe, cid, n):
     return out
 
 
+
+def fb_str_lines(rng, m, n):
+    """text and byte forms of binary-field elements (src/fb/relic_fb_util.c): every radix the interface admits (2, 4, …, 64) and the ones it
+    must refuse, zero / one / top-bit / maximal elements, buffer lengths around the advertised size, numerals that are too long, carry a
+    sign, contain a digit >= radix, or are empty; byte strings with coefficients at or above z^m"""
+    out = []
+    nb = (m + 7) // 8
+    alpha = "0123456789ABCDEFGHIJKLMNOPQRSTUVWXYZabcdefghijklmnopqrstuvwxyz+/"
+    def txt(v, radix):
+        if v == 0:
+            return "0"
+        s = ""
+        while v:
+            s = alpha[v % radix] + s
+            v //= radix
+        return s
+    vals = [0, 1, 2, 0x3f, 0x40, (1 << m) - 1, 1 << (m - 1), (1 << (m - 1)) | 1, 1 << 64, (1 << 64) - 1]
+    for radix in (2, 4, 8, 16, 32, 64):
+        for v in vals + [rng.bits(m) for _ in range(2)]:
+            t = txt(v, radix)
+            for ln in (len(t) + 1, len(t), len(t) + 9, 0, 1, 2):
+                out.append("fb_wstr %d %x %d" % (ln, v, radix))
+            out.append("fb_rstr %d %s" % (radix, t))
+        out.append("fb_rstr %d %s" % (radix, txt(1 << m, radix)))                  # one bit too long
+        out.append("fb_rstr %d %s" % (radix, txt((1 << (m + 70)) | 5, radix)))     # far too long
+        out.append("fb_rstr %d -%s" % (radix, txt(5, radix)))                        # a sign is not part of the notation
+        out.append("fb_rstr %d %s" % (radix, alpha[radix] if radix < 64 else "*")) # digit = radix
+        out.append("fb_rstr %d %s" % (radix, "1" + (alpha[radix] if radix < 64 else "*") + "1"))
+        out.append('fb_rstr %d ""' % radix)
+    for radix in (0, 1, 3, 10, 36, 62, 65, 128, 256):
+        out.append("fb_wstr 400 %x %d" % (rng.bits(m), radix))
+        out.append("fb_wstr 400 0 %d" % radix)
+        out.append("fb_rstr %d 101" % radix)
+    for _ in range(n):
+        radix = rng.choice([2, 4, 8, 16, 32, 64])
+        v = rng.bits(rng.choice([1, 8, 63, 64, 65, m - 1, m]))
+        t = txt(v, radix)
+        out.append("fb_wstr %d %x %d" % (rng.choice([len(t) + 1, len(t) + 1, len(t), len(t) + 2, rng.below(len(t) + 3)]), v, radix))
+        out.append("fb_rstr %d %s" % (radix, t if rng.chance(3, 4) else t.lower()))
+    for v in (0, 1, (1 << m) - 1, 1 << m, (1 << (8 * nb)) - 1, (1 << (8 * nb - 1)), rng.bits(m), rng.bits(8 * nb) | (1 << m)):
+        for ln in (nb, nb - 1, nb + 1, 0):
+            out.append("fb_rbin %s" % (("%0*x" % (2 * ln, v % (1 << (8 * ln)))) if ln else "."))
+        out.append("fb_wbin %d %x" % (nb, v % (1 << m)))
+    return out
+
+
 def streams(ctx, scale=1):
     n = (2500 if ctx.tier == "quick" else 80000) * scale
     res = []
@@ -312,6 +358,16 @@ def streams(ctx, scale=1):
         lines.append("ep2_param %d" % cid)
         lines += enc2_lines(ctx.rng, cv, exe2, cid, (120 if ctx.tier == "quick" else 4000) * scale)
     res.append({"name": "enc-ep2-base", "cfg": "base", "exe": exe2, "lines": lines})
+    # binary-field elements: text form in every radix and byte form (src/fb/relic_fb_util.c is one of the anchored files)
+    import props.c16 as c16
+    exe_fb = c16._exe(ctx, "base")
+    lines = ["cfg"]
+    for fid in c16.FIELDS["base"]:
+        kv = c16._info(exe_fb, "fb_param %d" % fid)
+        lines.append("fb_param %d" % fid)
+        if "m" in kv:
+            lines += fb_str_lines(ctx.rng, int(kv["m"]), (40 if ctx.tier == "quick" else 2000) * scale)
+    res.append({"name": "enc-fb-base", "cfg": "base", "exe": exe_fb, "lines": lines})
     for cfg in ("base", "w8"):
         exe = ctx.oracle(cfg)
         hdr, kv = _cfg(exe)
@@ -326,6 +382,9 @@ def search_streams(ctx, mfail):
 
 def replay_streams(ctx, rp):
     cfg = rp.get("config", "base")
+    if rp.get("context_lines") and rp["context_lines"][-1].startswith("fb_param"):
+        import props.c16 as c16
+        return [{"name": "replay", "cfg": cfg, "exe": c16._exe(ctx, cfg), "lines": ["cfg"] + rp["context_lines"] + rp.get("op_lines", [])}]
     if rp.get("context_lines"):
         import props.c03 as c03
         return [{"name": "replay", "cfg": cfg, "exe": c03._exe(ctx, cfg), "lines": ["cfg"] + rp["context_lines"] + rp.get("op_lines", [])}]
